@@ -107,6 +107,21 @@ fn gen_case(rng: &mut Rng, history: bool) -> Sx {
             ops.push(Sx::l(vec![Sx::n(0), Sx::l(vec![Sx::s(FIELDS[5]), Sx::n(opc), v_str(yes)])]));
             if rng.chance(1, 2) { ops.push(Sx::l(vec![Sx::n(0), Sx::l(vec![Sx::s(FIELDS[5]), Sx::n(opc), v_str(no)])])); }
         }
+        // type twins: an integer-valued field holds the FLOAT of its designated value (Number(12.0) where rules test Integer(12)), a query is
+        // asked, the field gets the integer, the same query is asked again - equal-looking values of different type must not share a memo entry
+        if rng.chance(1, 3) {
+            let ints: Vec<usize> = live.iter().cloned().filter(|&i| KIND[i] == T::I).collect();
+            if let Some(&i) = ints.first() {
+                let k = 5 + i as i64;
+                let gs = vec![goal(rng), goal(rng)];
+                let fl = Sx::l(vec![Sx::n(1), Sx::i(((k as f64).to_bits()) as i64)]);
+                let (first, second) = if rng.chance(2, 3) { (fl, v_int(k)) } else { (v_int(k), fl) };
+                ops.push(Sx::l(vec![Sx::n(1), Sx::s(FIELDS[i]), first]));
+                for g in &gs { ops.push(Sx::l(vec![Sx::n(0), g.clone()])); }
+                ops.push(Sx::l(vec![Sx::n(1), Sx::s(FIELDS[i]), second]));
+                for g in &gs { ops.push(Sx::l(vec![Sx::n(0), g.clone()])); }
+            }
+        }
         // the same query twice with a change of the facts in between is the interesting shape: make it likely
         if rng.chance(1, 2) { let g = goal(rng); let i = *rng.pick(&live);
             ops.push(Sx::l(vec![Sx::n(0), g.clone()])); ops.push(Sx::l(vec![Sx::n(2), Sx::s(FIELDS[i])])); ops.push(Sx::l(vec![Sx::n(0), g])); }
